@@ -303,6 +303,7 @@ proof fn lemma_step(c: Seq<ZoomRecord>, live0: Option<ZoomRecord>, l1: ZoomRecor
 }
 
 //@extract loopbody bigtools/src/bbi/bigwigwrite.rs process_val_zoom 1
+//@rule R16
 //@header fn process_val_zoom__level(zoom_item: &mut ZoomItem, options: &BBIWriteOptions, current_val: Value, next_val: Option<&Value>, chrom_id: u32, Ghost(hist): Ghost<Seq<Value>>, Ghost(prev_end): Ghost<int>)
 //@rule R2 min=1
 //@rule R1
